@@ -1,20 +1,23 @@
 #!/bin/bash
 # usage: tools/try_seed.sh <workdir-id> <property> [extra properties...]
-# 1. confirms in the scratch worktree /tmp/mut_<id>: suite green with the change, demo fails with / passes without
+# 1. confirms in the scratch worktree /tmp/mut_<id> (reset to HEAD, patch.diff applied): suite green with the change,
+#    demo fails with / passes without (git apply -R; no git stash: the stash is shared between worktrees)
 # 2. applies /tmp/mut_<id>_out/patch.diff to /repo, runs ./check for the properties, restores /repo
 id=$1; shift
 W=/tmp/mut_$id; O=/tmp/mut_${id}_out
 export CARGO_TARGET_DIR=$W/target
 cd $W || exit 9
-git diff > /tmp/seed_$id.diff
-if ! diff -q <(git diff) $O/patch.diff >/dev/null; then echo "NOTE: worktree diff differs from patch.diff (using worktree diff)"; fi
+git checkout -q -- . ; rm -rf bio-seq/tests
+git apply $O/patch.diff || { echo "patch.diff does not apply to the worktree"; exit 7; }
 echo "--- suite with change"; cargo test --workspace --offline 2>&1 | grep -E '^test result|FAILED|^error' | sort | uniq -c
+cargo test --offline -p bio-seq --features translation,extra_codecs 2>&1 | grep -E '^test result|FAILED|^error' | sort | uniq -c
 mkdir -p bio-seq/tests && cp $O/demo.rs bio-seq/tests/demo.rs
-echo "--- demo with change";  cargo test --offline --features translation,extra_codecs --test demo 2>&1 | grep -E '^test result|^error' | head -3
-git stash -q
-echo "--- demo without change"; cargo test --offline --features translation,extra_codecs --test demo 2>&1 | grep -E '^test result|^error' | head -3
-git stash pop -q
-rm -f bio-seq/tests/demo.rs
+echo "--- demo with change";  cargo test --offline -p bio-seq --features translation,extra_codecs --test demo 2>&1 | grep -E '^test result|^error' | head -3
+git apply -R $O/patch.diff
+echo "--- demo without change"; cargo test --offline -p bio-seq --features translation,extra_codecs --test demo 2>&1 | grep -E '^test result|^error' | head -3
+git apply $O/patch.diff
+rm -rf bio-seq/tests
+cp $O/patch.diff /tmp/seed_$id.diff
 cd /verif
 git -C /repo apply /tmp/seed_$id.diff || { echo "patch does not apply to /repo"; exit 8; }
 for p in "$@"; do echo "--- ./check $p on seeded tree"; ./check $p 2>&1 | grep -E '^(VIOLATION|FAILED-OBLIGATION|OK|UNDECIDED|KNOWN)' | cut -c1-260 | head -8; echo "exit ${PIPESTATUS[0]}"; done
